@@ -334,13 +334,14 @@ def _replace_tail_returns(block, make):
 class Resolver:
     """finds the definition of a private helper called from a function of class `ci` (or of module `rel`)"""
 
-    def __init__(self, repo, ci=None, rel=None):
+    def __init__(self, repo, ci=None, rel=None, keep=frozenset()):
         self.repo, self.ci = repo, ci
         self.rel = rel or (ci.module.rel if ci is not None else None)
+        self.keep = keep          # helpers that a rule is about: never inlined
 
     def lookup(self, call: ast.Call):
         cn = call_name(call)
-        if not cn:
+        if not cn or cn.rsplit(".", 1)[-1] in self.keep:
             return None
         if cn.startswith("self.") and cn.count(".") == 1 and self.ci is not None:
             name = cn[5:]
@@ -605,10 +606,10 @@ def _inline_block(stmts, res: Resolver, depth: int, stack: Tuple[str, ...]):
     return out
 
 
-def inlined(fn, repo, ci=None, rel=None, depth=2):
+def inlined(fn, repo, ci=None, rel=None, depth=2, keep=frozenset()):
     """V2"""
     f = clone(fn)
-    res = Resolver(repo, ci, rel)
+    res = Resolver(repo, ci, rel, keep)
     f.body = _norm_block(f.body)
     f.body = _inline_block(f.body, res, depth, (fn.name,))
     f.body = _norm_block(f.body)
@@ -673,8 +674,9 @@ def _stored_in(stmts) -> Tuple[Set[str], Set[str]]:
     return names, attrs
 
 
-def substituted(fn):
-    """V3 pass on an already normalised function: forward-substitute stable single-assignment temporaries."""
+def substituted(fn, only=None):
+    """V3 pass on an already normalised function: forward-substitute stable single-assignment temporaries
+    (`only`: predicate on the defining expression, e.g. boolean-valued temporaries only)."""
     f = clone(fn)
     set_parents(f)
     params = set(func_params(f))
@@ -697,7 +699,7 @@ def substituted(fn):
                     if names.get(x, 0) != 1 or x in params or x in mut_attrs:
                         continue           # re-bound, or mutated in place (x[k] = ..., x.append(...)): not a value temporary
                     rhs = s.value
-                    if isinstance(rhs, ast.Lambda):
+                    if isinstance(rhs, ast.Lambda) or (only is not None and not only(rhs)):
                         continue
                     uses = [n for n in ast.walk(f) if isinstance(n, ast.Name) and n.id == x and isinstance(n.ctx, ast.Load)]
                     if not uses:
@@ -791,6 +793,19 @@ def _crosses_effect(between, use) -> bool:
             if isinstance(x, (ast.Attribute, ast.Subscript)) and isinstance(x.ctx, ast.Store):
                 return True
     return False
+
+
+def bool_temps_substituted(f):
+    """named booleans (`ok = a and not b; if ok:`) are folded into the tests that use them, then the structure is re-normalised"""
+    for _ in range(3):
+        before = ast.dump(f)
+        f = substituted(f, only=lambda rhs: _is_boolish(rhs))
+        g = clone(f)
+        g.body = _norm_block(g.body)
+        f = set_parents(ast.fix_missing_locations(alpha(g)))
+        if ast.dump(f) == before:
+            break
+    return f
 
 
 def _fix(f):
